@@ -133,7 +133,7 @@ func runC02(p *Prog, r *Report) {
 	}
 	if rp := q.Fn(R, "protocol/xpush", "socket", "RemovePipe"); rp.OK() {
 		st := rp.Ev("store", "*.closed").Arg(0, "true")
-		r.Check(len(st) == 1 && len(st[0].Guard) == 0 && st.AllHeld(xm), R, "RemovePipe/marks-pipe-closed", st.Pos(p), "the departing pipe is marked closed unconditionally, under the lock", "RemovePipe does not mark the departing pipe closed on every path: an in-flight send that still succeeds puts the dead pipe back on the ready list, and the next message handed to it is lost: "+guardsOf(st))
+		r.Check(len(st) == 1 && st[0].Unconditional() && st.AllHeld(xm), R, "RemovePipe/marks-pipe-closed", st.Pos(p), "the departing pipe is marked closed unconditionally, under the lock", "RemovePipe does not mark the departing pipe closed on every path: an in-flight send that still succeeds puts the dead pipe back on the ready list, and the next message handed to it is lost: "+guardsOf(st))
 	}
 	q.ListRemoval(R, "RemovePipe/leaves-ready-list", q.Fn(R, "protocol/xpush", "socket", "RemovePipe"), "recv.readyQ", xm, "RemovePipe does not take the departing pipe out of the ready list by shortening it: a stale or duplicated entry is scheduled later and the message handed to it is lost or sent twice")
 	q.StoreClasses(R, "readyQ-writers", "protocol/xpush.socket.readyQ", map[string]string{"protocol/xpush.(*socket).sender": "set", "protocol/xpush.(*pipe).send": "set", "protocol/xpush.(*socket).AddPipe": "set", "protocol/xpush.(*socket).RemovePipe": "set"})
